@@ -74,7 +74,7 @@ def handle : List Sexp → Option String
 
 /-- every model module contributes a handler; the first one that recognises the request answers -/
 def handlers : List (List Sexp → Option String) :=
-  [handle, Asn1.Time.handle, Asn1.Stream.handle, Asn1.Constraint.handle]
+  [handle, Asn1.Time.handle, Asn1.Stream.handle, Asn1.Constraint.handle, Asn1.Container.handle]
 
 def dispatch (sx : List Sexp) : Option String :=
   handlers.findSome? (fun h => h sx)
